@@ -4,6 +4,7 @@ package c08
 
 import (
 	"fmt"
+	"math"
 	"sort"
 	"strings"
 	"sync"
@@ -126,6 +127,7 @@ const (
 type batch struct {
 	target, parent, origin string
 	pts                    data.Points
+	refused                bool // carries a NaN: must be refused, nobody is told
 }
 
 func TestPropToldOfForeignChanges(t *testing.T) {
@@ -268,6 +270,12 @@ func TestPropToldOfForeignChanges(t *testing.T) {
 					b.pts = append(b.pts, p)
 				}
 			}
+			// one batch in twelve carries a value the store cannot represent: the
+			// store refuses it as a whole (C05), so nobody is told of any of it
+			if rapid.IntRange(0, 11).Draw(t, "refusedBatch") == 0 {
+				b.pts[rapid.IntRange(0, len(b.pts)-1).Draw(t, "nanAt")].Value = math.NaN()
+				b.refused = true
+			}
 			batches = append(batches, b)
 		}
 		// sentinel: a foreign batch to P that must be delivered; when it arrives everything before it has been handled
@@ -287,6 +295,15 @@ func TestPropToldOfForeignChanges(t *testing.T) {
 				subj += "." + b.parent
 			}
 			r, err := fix.Write(in.NC, subj, b.pts)
+			if b.refused {
+				if err != nil || r == "" {
+					t.Fatalf("write %s with a NaN value was not refused: %q %v", subj, r, err)
+				}
+				if inSubtree[b.target] && b.origin != pID && !(b.origin == "" && b.target == pID) {
+					outcomes["refusedForeignWrite"] = true
+				}
+				continue
+			}
 			if err != nil || r != "" {
 				t.Fatalf("write %s: %q %v", subj, r, err)
 			}
